@@ -42,6 +42,10 @@ func runOne(scenario string, prefix []int, trace bool) *explore.Outcome {
 		w = newWorld(s, sc)
 		return w
 	})
+	// different scenarios must not share trace hashes
+	for i := 0; i < len(scenario); i++ {
+		x.Hash = (x.Hash ^ uint64(scenario[i])) * 1099511628211
+	}
 	for _, f := range sc.Final {
 		f(w, x)
 	}
@@ -51,8 +55,12 @@ func runOne(scenario string, prefix []int, trace bool) *explore.Outcome {
 	}
 	o := &explore.Outcome{Exec: x, Class: classOf(w, x), States: w.states,
 		Foreign: w.foreign, Reached: w.reached}
+	fam := scenario
+	if i := strings.IndexByte(fam, '/'); i > 0 {
+		fam = fam[:i]
+	}
 	for _, f := range w.findings {
-		o.Findings = append(o.Findings, explore.Finding{Key: f.Key, What: f.What})
+		o.Findings = append(o.Findings, explore.Finding{Key: fam + ":" + f.Key, What: f.What})
 	}
 	lastWorld = w
 	return o
@@ -82,9 +90,12 @@ func workerCmd() *exec.Cmd {
 // Job is one exploration of one scenario.
 type Job struct {
 	Scenario string
-	Budgets  []explore.Budget
-	Filter   string
-	Split    int
+	// Scenarios, when set, is a batch of scenarios explored together
+	// with the same budgets (Scenario is then only a label).
+	Scenarios []string
+	Budgets   []explore.Budget
+	Filter    string
+	Split     int
 }
 
 func B(s, f int) explore.Budget { return explore.Budget{S: s, F: f} }
@@ -117,23 +128,37 @@ func TestCheck(t *testing.T) {
 	for _, j := range jobs {
 		// Non-vacuity and determinism gate on the canonical schedule:
 		// run it twice, demand identical traces.
-		o1 := runOne(j.Scenario, nil, false)
-		o2 := runOne(j.Scenario, nil, false)
-		if o1.Exec.Hash != o2.Exec.Hash || len(o1.Exec.Points) != len(o2.Exec.Points) {
-			ev.Framework("scenario %s: canonical schedule is not deterministic (hash %x vs %x, points %d vs %d)",
-				j.Scenario, o1.Exec.Hash, o2.Exec.Hash, len(o1.Exec.Points), len(o2.Exec.Points))
+		scen := j.Scenarios
+		if len(scen) == 0 {
+			scen = []string{j.Scenario}
 		}
-		if !sampleDone[j.Scenario] {
-			sampleDone[j.Scenario] = true
-			r.Sample(map[string]any{
-				"scenario": j.Scenario, "schedule": "canonical (all choices 0)",
-				"choice_points": len(o1.Exec.Points), "steps": o1.Exec.Steps,
-				"virtual_time_s": o1.Exec.Elapsed.Seconds(), "outcome": o1.Class,
-			})
+		gate := scen
+		if len(gate) > 3 {
+			gate = []string{scen[0], scen[len(scen)/2], scen[len(scen)-1]}
 		}
-		root := explore.Task{Scenario: j.Scenario, Budgets: j.Budgets, Filter: j.Filter,
-			Split: j.Split, DeadlineUnix: deadline.Unix()}
-		sum, err := m.Explore([]explore.Task{root})
+		var o1 *explore.Outcome
+		for _, sn := range gate {
+			o1 = runOne(sn, nil, false)
+			o2 := runOne(sn, nil, false)
+			if o1.Exec.Hash != o2.Exec.Hash || len(o1.Exec.Points) != len(o2.Exec.Points) {
+				ev.Framework("scenario %s: canonical schedule is not deterministic (hash %x vs %x, points %d vs %d)",
+					sn, o1.Exec.Hash, o2.Exec.Hash, len(o1.Exec.Points), len(o2.Exec.Points))
+			}
+			if !sampleDone[sn] {
+				sampleDone[sn] = true
+				r.Sample(map[string]any{
+					"scenario": sn, "schedule": "canonical (all choices 0)",
+					"choice_points": len(o1.Exec.Points), "steps": o1.Exec.Steps,
+					"virtual_time_s": o1.Exec.Elapsed.Seconds(), "outcome": o1.Class,
+				})
+			}
+		}
+		var roots []explore.Task
+		for _, sn := range scen {
+			roots = append(roots, explore.Task{Scenario: sn, Budgets: j.Budgets, Filter: j.Filter,
+				Split: j.Split, DeadlineUnix: deadline.Unix(), Known: r.OpenKeys()})
+		}
+		sum, err := m.Explore(roots)
 		if err != nil {
 			ev.Framework("exploration of %s failed: %v", j.Scenario, err)
 		}
@@ -144,7 +169,7 @@ func TestCheck(t *testing.T) {
 		hashes += sum.DistinctHashes
 		states += sum.DistinctStates
 		info := map[string]any{
-			"scenario": j.Scenario, "budgets": fmt.Sprint(j.Budgets), "filter": j.Filter,
+			"scenario": j.Scenario, "scenarios_in_batch": len(scen), "budgets": fmt.Sprint(j.Budgets), "filter": j.Filter,
 			"executions": sum.Execs, "scheduler_steps": sum.Steps,
 			"distinct_traces": sum.DistinctHashes, "distinct_states": sum.DistinctStates,
 			"distinct_outcomes": len(sum.Classes), "ineffective_select_prefs": sum.Ineffective,
@@ -222,7 +247,7 @@ func confirmAndReport(r *ev.Run, v explore.Violation) {
 	if len(tr) > 400 {
 		tr = append(tr[:100:100], tr[len(tr)-300:]...)
 	}
-	r.Violation(v.Scenario[:strings.IndexAny(v.Scenario+"/", "/")]+":"+v.Key, v.What, map[string]any{
+	r.Violation(v.Key, v.What, map[string]any{
 		"engine": "gbnmc", "scenario": v.Scenario, "choices": v.Choices,
 		"deviations": map[string]int{"scheduling": v.DS, "fault": v.DF},
 		"trace_hash": fmt.Sprintf("%x", hash), "trace": tr,
